@@ -123,6 +123,9 @@ pub struct Chain {
     pub price: u128,
     pub swap_mode: Mode,
     pub oracle_mode: Mode,
+    /// the hub parameters the deployment was configured with (epoch, unbonding period, peg fee and threshold as
+    /// Decimal atomics): oracles judge against these, not against what the hub stores or reports
+    pub hub_cfg: Option<(u64, u64, u128, u128)>,
 }
 
 pub type TxResult = Result<Vec<Fx>, String>;
@@ -309,6 +312,7 @@ impl Chain {
             price: 1_000_000_000_000_000_000,
             swap_mode: Mode::Ok,
             oracle_mode: Mode::Ok,
+            hub_cfg: None,
         }
     }
     pub fn env(&self, contract: &str) -> Env {
@@ -779,6 +783,9 @@ impl Chain {
         h.update(self.unbonding_time.to_le_bytes());
         h.update(self.price.to_le_bytes());
         h.update([self.swap_mode as u8, self.oracle_mode as u8]);
+        if let Some(k) = &self.hub_cfg {
+            h.update(format!("cfg{:?}", k).as_bytes());
+        }
         for ((a, d), v) in &self.bank {
             if *v > 0 {
                 s(h, a);
